@@ -27,6 +27,10 @@ type SpecEnv struct {
 	// contract instantiations inside lemmas); they are assumed, not proved.
 	assumes []Term
 	inLemma bool
+	// loop invariants: parameters the loop reassigns are shadowed by the loop-carried value
+	shadow     func(name string) (SpecVal, bool)
+	shadowable map[string]SpecVal
+	inOld      bool
 	tparams map[string]types.Type // type parameters of the function under contract (usable as quantifier types)
 }
 
@@ -248,6 +252,14 @@ func (env *SpecEnv) Eval(e *Expr) (SpecVal, error) {
 }
 
 func (env *SpecEnv) ident(name string) (SpecVal, error) {
+	// a parameter that the loop reassigns: outside old() its name means the current value
+	if env.shadow != nil && !env.inOld {
+		if pv, isParam := env.shadowable[name]; isParam && env.vars[name].T.S == pv.T.S {
+			if v, ok := env.shadow(name); ok {
+				return v, nil
+			}
+		}
+	}
 	if v, ok := env.vars[name]; ok {
 		return v, nil
 	}
@@ -933,6 +945,7 @@ func (env *SpecEnv) call(e *Expr) (SpecVal, error) {
 		}
 		sub := *env
 		sub.cur = env.old
+		sub.inOld = true
 		v, err := sub.Eval(args[0])
 		env.assumes = append(env.assumes, sub.assumes...)
 		return v, err
